@@ -1,0 +1,68 @@
+//go:build verif
+
+package vaxis
+
+import (
+	"image"
+	"image/color"
+)
+
+// Hooks for the verification harness of property C20 (images).  Add-only,
+// guarded by the build tag "verif": re-exports of unexported functions and
+// read-only snapshots; no logic of their own.
+
+// VerifResizeImage re-exports resizeImage
+func VerifResizeImage(img image.Image, w int, h int, cellPixW int, cellPixH int) image.Image {
+	return resizeImage(img, w, h, cellPixW, cellPixH)
+}
+
+// VerifToRGB re-exports toRGB
+func VerifToRGB(c color.Color) (uint8, uint8, uint8, uint8) { return toRGB(c) }
+
+// VerifAverageColor re-exports averageColor
+func VerifAverageColor(c color.Color, colors ...color.Color) (uint8, uint8, uint8, uint8) {
+	return averageColor(c, colors...)
+}
+
+// VerifTransparentEnough re-exports the alpha threshold constant
+const VerifTransparentEnough = transparentEnough
+
+// VerifCells returns a copy of the encoded cells of a half-block image
+func (hb *HalfBlockImage) VerifCells() []Cell { return append([]Cell(nil), hb.cells...) }
+
+// VerifCells returns a copy of the encoded cell colours of a full-block image
+func (fb *FullBlockImage) VerifCells() []Color { return append([]Color(nil), fb.cells...) }
+
+// VerifID / VerifEncoding: identity and "encoder goroutine running" flag
+func (k *KittyImage) VerifID() uint64     { return k.id }
+func (k *KittyImage) VerifEncoding() bool { return atomicLoad(&k.encoding) }
+func (s *Sixel) VerifID() uint64          { return s.id }
+func (s *Sixel) VerifEncoding() bool      { return atomicLoad(&s.encoding) }
+
+// VerifPlacement is a copy of the comparable fields of a placement
+type VerifPlacement struct {
+	ID             uint64
+	Col, Row, W, H int
+}
+
+func verifPlacements(ps []*placement) []VerifPlacement {
+	out := make([]VerifPlacement, len(ps))
+	for i, p := range ps {
+		out[i] = VerifPlacement{p.id, p.col, p.row, p.w, p.h}
+	}
+	return out
+}
+
+// VerifGraphicsNext / VerifGraphicsLast: snapshots of the placement lists
+func (vx *Vaxis) VerifGraphicsNext() []VerifPlacement { return verifPlacements(vx.graphicsNext) }
+func (vx *Vaxis) VerifGraphicsLast() []VerifPlacement { return verifPlacements(vx.graphicsLast) }
+
+// VerifSamePlacement re-exports samePlacement on copies
+func VerifSamePlacement(a, b VerifPlacement) bool {
+	return samePlacement(&placement{id: a.ID, col: a.Col, row: a.Row, w: a.W, h: a.H},
+		&placement{id: b.ID, col: b.Col, row: b.Row, w: b.W, h: b.H})
+}
+
+// VerifWinSize returns the window size record from which Kitty/Sixel Resize
+// derive the cell size in pixels
+func (vx *Vaxis) VerifWinSize() Resize { return vx.winSize }
